@@ -21,5 +21,9 @@ s = open(p).read()
 b, e = "<!-- FINDINGS-TABLE-BEGIN -->", "<!-- FINDINGS-TABLE-END -->"
 assert b in s and e in s
 s = s[:s.index(b) + len(b)] + "\n" + head + "\n".join(rows) + "\n" + s[s.index(e):]
+import re as _re
+s = _re.sub(r"found \*\*\d+ genuine defects\*\* on the pinned tree \(entries of `known_findings.json`\), of which \d+ are\nrepaired by minimal `fix:` commits in `/repo` and \d+ are recorded as known findings",
+            "found **%d genuine defects** on the pinned tree (entries of `known_findings.json`), of which %d are\nrepaired by minimal `fix:` commits in `/repo` and %d are recorded as known findings" % (len(d), nf, nk), s)
+s = _re.sub(r"disagreement is a finding to classify — \d+ of them were genuine", "disagreement is a finding to classify — %d of them were genuine" % len(d), s)
 open(p, "w").write(s)
 print(head.strip())
